@@ -55,6 +55,11 @@ def check_trial(prog: Program, sc, rec) -> list[dict]:
 
     if rec.outcome == "raised":
         return out  # reported under C03/U5
+    if rec.outcome in ("rejected", "failed") and any(simp(rec.after[c]) != simp(rec.before[c]) for c in ("P", "A", "C")):
+        # the configuration itself was not restored: that is C03's violation; every energy/cache
+        # comparison below would only restate it
+        out.append({"status": "ok", "rule": "E1", "construct": f"{scen}:{rec.outcome}:skipped-unrestored-configuration(C03)"})
+        return out
     cfg = m.config()
     ccfg = m.calc_config()
     R = m.heap["calc"]["R"]
